@@ -156,7 +156,7 @@ PROPS["C14"] = {
     "assumptions": ["encoding_rs's encode_from_utf8_without_replacement consumes an unmappable character and reports OutputFull only when the next code does not fit"],
 }
 PROPS["C07"] = {
-    "module": "MsiProofs.Props.C07b",
+    "module": "MsiProofs.Props.C07c",
     "gen": ["category", "column"],
     "profiles": ["dev"],
     "theorems": [
@@ -164,8 +164,8 @@ PROPS["C07"] = {
         "MsiProofs.C07.intercalate_splitOn", "MsiProofs.C07.splitOn_intercalate", "MsiProofs.C07.splitOn_no_sep",
         "MsiProofs.C07.version_iff", "MsiProofs.C07.language_iff", "MsiProofs.C07.identifier_iff",
         "MsiProofs.C07.property_iff", "MsiProofs.C07.case_iff", "MsiProofs.C07.cabinet_hash",
-        "MsiProofs.C07.validate_total", "MsiProofs.C07.unchecked_accept", "MsiProofs.C07.isValidValue_spec", "MsiProofs.C07.integer_iff", "MsiProofs.C07.cabinet_file", "MsiProofs.C07.guid_iff", "MsiProofs.C07.hex_size"],
-    "level_text": "GUID (guid_iff): validate accepts exactly the braced hyphenated 8-4-4-4-12 form in hex digits none of which is a lower-case letter (38 bytes because every such character is one byte: hex_size); what Uuid::parse_str accepts on a 36-byte input is modelled (uuidHyphenated) and tied by bounded-exhaustive strings. Also Integer / DoubleInteger = the text of a 16- / 32-bit integer (one optional sign, digits, value in range: integer_iff) and the file-name form of Cabinet (1-8 characters before the last period, extension of at most 3, counted in characters: cabinet_file). Lean theorems, for every string / every (column, value): Category::validate is equivalent to the declarative grammar for "
+        "MsiProofs.C07.validate_total", "MsiProofs.C07.unchecked_accept", "MsiProofs.C07.isValidValue_spec", "MsiProofs.C07.integer_iff", "MsiProofs.C07.cabinet_file", "MsiProofs.C07.guid_iff", "MsiProofs.C07.hex_size", "MsiProofs.C07.checkNew_eq", "MsiProofs.C07.loadMap_some", "MsiProofs.C07.addRows_no_err", "MsiProofs.C07.insert_reply"],
+    "level_text": "THE INSERT GATE AT STATE LEVEL (insert_reply): in every state with the package invariant the reply of Insert::exec is a function of the rows the table shows and the request - an error exactly when a row has the wrong number of values or a value is not valid for its column (InvalidInput), a key is already present (AlreadyExists) or repeated in the batch, or the table would exceed the row bound; otherwise Ok (or the string pool's capacity panic, known finding D16b); no other failure exists. GUID (guid_iff): validate accepts exactly the braced hyphenated 8-4-4-4-12 form in hex digits none of which is a lower-case letter (38 bytes because every such character is one byte: hex_size); what Uuid::parse_str accepts on a 36-byte input is modelled (uuidHyphenated) and tied by bounded-exhaustive strings. Also Integer / DoubleInteger = the text of a 16- / 32-bit integer (one optional sign, digits, value in range: integer_iff) and the file-name form of Cabinet (1-8 characters before the last period, extension of at most 3, counted in characters: cabinet_file). Lean theorems, for every string / every (column, value): Category::validate is equivalent to the declarative grammar for "
                   "Version, Language (split/join inverse lemmas), Identifier, Property, UpperCase/LowerCase; validators total; "
                   "Column::is_valid_value equals the documented rule (nullability, storable and declared ranges with the most negative value "
                   "reserved, width in characters, enumeration, category); category spellings round-trip (decide on regenerated tables); "
@@ -219,11 +219,11 @@ PROPS["C01"] = {
 }
 
 PROPS["C03"] = {
-    "module": "MsiProofs.Props.C03b",
+    "module": "MsiProofs.Props.C03c",
     "gen": ["limits", "column", "category"],
     "profiles": ["dev"],
-    "theorems": ["MsiProofs.C03.filterRows_spec", "MsiProofs.C03.deleteGo_rows", "MsiProofs.C03.updPlan_spec", "MsiProofs.C03.insert_adds_exactly", "MsiProofs.C03.incref_ext", "MsiProofs.C03.insert_refines", "MsiProofs.C03.insert_then_load", "MsiProofs.C03.decref_spec", "MsiProofs.C03.deleteGo_refines", "MsiProofs.C03.delete_refines", "MsiProofs.C03.delete_then_load", "MsiProofs.C03.readRows_rowOk", "MsiProofs.C03.write_read", "MsiProofs.C03.history_inv", "MsiProofs.C03.op_inv", "MsiProofs.C03.update_then_load", "MsiProofs.C03.assign_spec", "MsiProofs.C03.dml_history_inv"],
-    "level_text": 'UPDATE too: update_then_load - after a successful Update::exec the new state reads the table as a re-ordering of rows that are, as values, the old rows with the assignments ("" as null) applied to exactly the planned rows; every other cell keeps its value; same slack; no other stream touched; and every history of inserts, updates and deletes keeps the package invariant (dml_history_inv). Package-wide frame condition: an insert or delete on one table leaves what every other table reads as unchanged and keeps the package invariant; along every history (history_inv). STATE-LEVEL REFINEMENT: Insert::exec and Delete::exec refine the relational insert / delete on the package state. insert_then_load: after a successful insert the new state reads the table as - in values - exactly the old rows plus the new ones (with "" stored as null), in strictly ascending key order, the pool only having been extended (live entries keep their text), no other stream touched. delete_then_load: with the pools reference counts covering the stored references (Accounted; any other cells of interest may be included), after a successful delete the new state reads exactly the stored rows on which the condition - evaluated on their original values - is false, in order; every remaining cell anywhere keeps its value and the accounting keeps holding (the hypothesis hconst of the loop-level theorem is discharged). Rows read fit their columns and are read back as written (readRows_rowOk, write_read). Lean theorems: the row loops of select, delete and update equal filter / keep-if-not / map-if of the relational model for every table, row list and condition; insert adds exactly the given rows to a key-sorted map. Frame condition and lift over histories: correspondence + an independent in-memory relational reference (harness/src/refdb.rs) compared after every step, plus all operation sequences to depth 3 (quick) / 4 (thorough) over a small alphabet.',
+    "theorems": ["MsiProofs.C03.filterRows_spec", "MsiProofs.C03.deleteGo_rows", "MsiProofs.C03.updPlan_spec", "MsiProofs.C03.insert_adds_exactly", "MsiProofs.C03.incref_ext", "MsiProofs.C03.insert_refines", "MsiProofs.C03.insert_then_load", "MsiProofs.C03.decref_spec", "MsiProofs.C03.deleteGo_refines", "MsiProofs.C03.delete_refines", "MsiProofs.C03.delete_then_load", "MsiProofs.C03.readRows_rowOk", "MsiProofs.C03.write_read", "MsiProofs.C03.history_inv", "MsiProofs.C03.op_inv", "MsiProofs.C03.update_then_load", "MsiProofs.C03.assign_spec", "MsiProofs.C03.dml_history_inv", "MsiProofs.C03.ascending_perm_unique", "MsiProofs.C03.specResult_unique", "MsiProofs.C03.insert_view", "MsiProofs.C03.delete_view", "MsiProofs.C03.update_view", "MsiProofs.C03.op_refines", "MsiProofs.C03.history_refines", "MsiProofs.C03.createTable_view", "MsiProofs.C03.dropTable_view", "MsiProofs.C03.step_view_same", "MsiProofs.C03.created_dml_refines", "MsiProofs.C03.select_table_view", "MsiProofs.C03.select_order"],
+    "level_text": 'REFINEMENT TO THE RELATIONAL MODEL (op_refines, history_refines, created_dml_refines): the view of a package = every table definition with its rows as values. In every state with the package invariant - in particular every state reachable from Package::create through the whole mutating API - each statement, accepted or refused, changes the view exactly as the plain relational model says: INSERT leaves the table showing a permutation of the old rows plus the given rows ("" as null) in strictly ascending key order; DELETE leaves exactly the rows on which the condition, evaluated on the row\'s values, is false, in order; UPDATE leaves a permutation of the old rows with the assignments applied to exactly the rows on which the condition is true, in ascending key order; the table list and the rows of every other table are untouched; a refused statement returns the state it was given. \'Ascending + permutation of X\' determines the list (ascending_perm_unique), so the result is a function of the old view and the statement (specResult_unique). create_table adds the new definition showing no rows and leaves every user table\'s rows untouched (createTable_view); drop_table removes it and leaves the others untouched (dropTable_view); every other call - stream writes/removals, signature removal, summary setters, code page, save, close-and-reopen - leaves the whole view untouched (step_view_same). SELECT on a table returns - as values - exactly the rows the table shows on which the condition is true, in the order shown (ascending primary-key order: select_order), restricted to the requested columns in the requested order, and as many rows as satisfy the condition (select_table_view). UPDATE too: update_then_load - after a successful Update::exec the new state reads the table as a re-ordering of rows that are, as values, the old rows with the assignments ("" as null) applied to exactly the planned rows; every other cell keeps its value; same slack; no other stream touched; and every history of inserts, updates and deletes keeps the package invariant (dml_history_inv). Package-wide frame condition: an insert or delete on one table leaves what every other table reads as unchanged and keeps the package invariant; along every history (history_inv). STATE-LEVEL REFINEMENT: Insert::exec and Delete::exec refine the relational insert / delete on the package state. insert_then_load: after a successful insert the new state reads the table as - in values - exactly the old rows plus the new ones (with "" stored as null), in strictly ascending key order, the pool only having been extended (live entries keep their text), no other stream touched. delete_then_load: with the pools reference counts covering the stored references (Accounted; any other cells of interest may be included), after a successful delete the new state reads exactly the stored rows on which the condition - evaluated on their original values - is false, in order; every remaining cell anywhere keeps its value and the accounting keeps holding (the hypothesis hconst of the loop-level theorem is discharged). Rows read fit their columns and are read back as written (readRows_rowOk, write_read). Lean theorems: the row loops of select, delete and update equal filter / keep-if-not / map-if of the relational model for every table, row list and condition; insert adds exactly the given rows to a key-sorted map. Frame condition and lift over histories: correspondence + an independent in-memory relational reference (harness/src/refdb.rs) compared after every step, plus all operation sequences to depth 3 (quick) / 4 (thorough) over a small alphabet.',
     "level_note": "Trusted: Lean kernel; the hand-written package model (MsiModel/Pkg.lean, PkgApi.lean, Pool, Table, PropSet, Summary), tied to the code by byte-exact correspondence: the same request histories run on the real crate and on the model's definitions, compared on every reply including full snapshots and the raw bytes of every saved stream; cfb is modelled as a finite map from names (compared by UTF-16 length and upper-cased text) to byte strings; the 24 table-backed code pages are modelled on ASCII text only (non-ASCII text is exercised under UTF-8; all pages are exercised by the oracle on the real code).",
     "technique": 'Lean 4 proof (loops = list operations, by induction) + exhaustive small-alphabet sequences + reference database oracle',
     "rule": 'seeded random sessions: package type, database code page, 1-3 tables with random schemas (types, widths, flags, ranges, categories, enumerations, composite/nullable keys), inserts (valid with controlled invalid mutations), updates (incl. key columns), deletes, selects, stream writes/removes (0..9000 bytes), summary setters/clearers, create/drop table, rejected calls, close/reopen in all three modes at random positions, snapshot after every step, raw bytes after flush. non-trivial = distinct successful mutating requests + decoded files',
@@ -245,11 +245,11 @@ PROPS["C04"] = {
 }
 
 PROPS["C05"] = {
-    "module": "MsiProofs.Props.C05b",
+    "module": "MsiProofs.Props.C05c",
     "gen": ["limits", "column"],
     "profiles": ["dev"],
-    "theorems": ["MsiProofs.C05.key_order_strict_total", "MsiProofs.C05.loadMap_sorted", "MsiProofs.C05.addRows_sorted", "MsiProofs.C05.insert_writes_sorted_unique", "MsiProofs.C05.insert_refused_iff_present", "MsiProofs.C05.sortByKey_perm", "MsiProofs.C05.insert_sorted", "MsiProofs.C05.delete_sorted", "MsiProofs.C05.history_sorted", "MsiProofs.C05.keys_distinct", "MsiProofs.C05.readRows_rowOk", "MsiProofs.C05.sortByKey_sorted", "MsiProofs.C05.strict_of_sorted_nodup", "MsiProofs.C05.update_sorted", "MsiProofs.C05.dml_history_sorted", "MsiProofs.C05.created_history_sorted"],
-    "level_text": 'EVERY REACHABLE STATE (created_history_sorted): in every state reachable from Package::create by statements on user tables (accepted or refused), create_table, drop_table and saves, every table - the catalog tables included - reads its rows in strictly ascending key order, hence with pairwise distinct keys. HISTORIES: in every table the rows the state reads are in strictly ascending key order (keys = values of the key columns under the current pool), hence pairwise distinct; every insert, UPDATE (re-sorted by an insertion sort proved to sort, with the duplicate check giving strict ascent; stored order and keys kept when no key column is assigned) or delete on any table, accepted or refused, keeps this for ALL tables of the package (dml_history_sorted, with the package invariant of C08); rows read always fit the type and width of their columns. Cell validity beyond type/width (ranges, categories, enumerations): oracle. Lean theorems: the derived ordering of values and key tuples is a strict total order; the key-sorted map used by Insert::exec stays strictly sorted through loading and adding, so the rows written back have pairwise distinct, ascending keys for every table, batch and arrival order; an insertion is refused exactly for a present key; the update path re-sorts by a permutation. Tie: the invariant (unique ascending keys, valid cells) is evaluated on the real rows after every step and reopen.',
+    "theorems": ["MsiProofs.C05.key_order_strict_total", "MsiProofs.C05.loadMap_sorted", "MsiProofs.C05.addRows_sorted", "MsiProofs.C05.insert_writes_sorted_unique", "MsiProofs.C05.insert_refused_iff_present", "MsiProofs.C05.sortByKey_perm", "MsiProofs.C05.insert_sorted", "MsiProofs.C05.delete_sorted", "MsiProofs.C05.history_sorted", "MsiProofs.C05.keys_distinct", "MsiProofs.C05.readRows_rowOk", "MsiProofs.C05.sortByKey_sorted", "MsiProofs.C05.strict_of_sorted_nodup", "MsiProofs.C05.update_sorted", "MsiProofs.C05.dml_history_sorted", "MsiProofs.C05.created_history_sorted", "MsiProofs.C05.rowValid_of_checked", "MsiProofs.C05.rowValid_applyUps", "MsiProofs.C05.op_valid", "MsiProofs.C05.dml_history_valid", "MsiProofs.C05.step_valid", "MsiProofs.C05.created_history_valid"],
+    "level_text": 'VALID CELLS IN EVERY REACHABLE STATE (created_history_valid): in every state reachable from Package::create by statements (accepted or refused), create_table, drop_table, stream calls, signature removal, summary setters, code-page changes, saves and close-and-reopen, every row of every table - catalog tables included - has one value per column and every value is the stored form ("" stored as null) of a value its column declares valid: type, nullability, integer range, category, enumeration, maximum length (op_valid / step_valid: one call keeps it; base_valid / created_valid: create establishes it). EVERY REACHABLE STATE (created_history_sorted): in every state reachable from Package::create by statements on user tables (accepted or refused), create_table, drop_table and saves, every table - the catalog tables included - reads its rows in strictly ascending key order, hence with pairwise distinct keys. HISTORIES: in every table the rows the state reads are in strictly ascending key order (keys = values of the key columns under the current pool), hence pairwise distinct; every insert, UPDATE (re-sorted by an insertion sort proved to sort, with the duplicate check giving strict ascent; stored order and keys kept when no key column is assigned) or delete on any table, accepted or refused, keeps this for ALL tables of the package (dml_history_sorted, with the package invariant of C08); rows read always fit the type and width of their columns. Cell validity beyond type/width (ranges, categories, enumerations): oracle. Lean theorems: the derived ordering of values and key tuples is a strict total order; the key-sorted map used by Insert::exec stays strictly sorted through loading and adding, so the rows written back have pairwise distinct, ascending keys for every table, batch and arrival order; an insertion is refused exactly for a present key; the update path re-sorts by a permutation. Tie: the invariant (unique ascending keys, valid cells) is evaluated on the real rows after every step and reopen.',
     "level_note": "Trusted: Lean kernel; the hand-written package model (MsiModel/Pkg.lean, PkgApi.lean, Pool, Table, PropSet, Summary), tied to the code by byte-exact correspondence: the same request histories run on the real crate and on the model's definitions, compared on every reply including full snapshots and the raw bytes of every saved stream; cfb is modelled as a finite map from names (compared by UTF-16 length and upper-cased text) to byte strings; the 24 table-backed code pages are modelled on ASCII text only (non-ASCII text is exercised under UTF-8; all pages are exercised by the oracle on the real code).",
     "technique": 'Lean 4 proof (strict total order + sortedness invariant by induction) + invariant oracle on real rows',
     "rule": 'seeded random sessions: package type, database code page, 1-3 tables with random schemas (types, widths, flags, ranges, categories, enumerations, composite/nullable keys), inserts (valid with controlled invalid mutations), updates (incl. key columns), deletes, selects, stream writes/removes (0..9000 bytes), summary setters/clearers, create/drop table, rejected calls, close/reopen in all three modes at random positions, snapshot after every step, raw bytes after flush. non-trivial = distinct successful mutating requests + decoded files',
